@@ -205,6 +205,61 @@ fn magnitude_checks(ctx: &Ctx) -> SubReport {
     rep
 }
 
+/// (N) time against the NESTING DEPTH of the code operands: a state whose top CODE / EXEC items
+/// are nested d levels deep has about 2d points, so a step may cost a small multiple of d (or
+/// d^2) - not 2^d. Depths ascend and the sweep of an instruction stops at its first failure.
+fn nesting_checks(ctx: &Ctx) -> SubReport {
+    let names: Vec<String> = crate::exec::registry_names()
+        .into_iter()
+        .filter(|n| footprint::get(n).map(|f| f.need.iter().any(|(c, _)| *c == "CODE" || *c == "EXEC")).unwrap_or(false))
+        .collect();
+    let chain = |d: usize, inner: i32| -> ItemSpec {
+        let mut t = ItemSpec::List(vec![ItemSpec::Int(inner)]);
+        for k in 0..d {
+            t = if k % 3 == 1 { ItemSpec::List(vec![ItemSpec::Int(k as i32), t]) } else { ItemSpec::List(vec![t]) };
+        }
+        t
+    };
+    let mut rep = par_map(ctx, "time-vs-nesting-depth", names.len() as u64, |ni, rep| {
+        let name = &names[ni as usize];
+        for d in [4usize, 8, 12, 16, 18, 20, 22, 24, 26, 28, 32, 40, 64, 128] {
+            let mut s = base_state();
+            s.code = vec![chain(d, 5), chain(d, 5), chain(d, 6)];
+            s.exec = vec![chain(d, 7), chain(d, 7), chain(d, 8)];
+            s.ints = vec![1, 1, 0, 2];
+            rep.evaluations += 1;
+            crate::supervise::journal_instr("C15", name, &s);
+            let (mut st, _) = s.build();
+            let t0 = thread_cpu();
+            let r = guarded(|| with_machine(|m| m.step_named(&mut st, name)));
+            let cpu = thread_cpu() - t0;
+            drop(st);
+            let case = json!({"instruction": name, "nesting_depth": d, "state": s.to_json(), "cpu_seconds": cpu});
+            if let Err((l, m)) = r {
+                rep.fail(ctx, Fail::new(format!("C15/{}/panic@{}", name, l), format!("nesting depth {}: {}", d, m)), case);
+                break;
+            }
+            if cpu > STEP_CPU_LIMIT {
+                rep.fail(ctx, Fail::new(format!("C15/time-by-nesting/{}", name), format!("{} on code nested {} levels deep ({} points in the state) used {:.2} s of CPU time in one step", name, d, s.cells(), cpu)), case);
+                break;
+            }
+            if d >= 16 {
+                let mut h = Fnv::new();
+                h.str(name);
+                h.u64(d as u64);
+                rep.nontrivial.insert(h.0);
+            }
+            if ni % 29 == 0 && d == 24 {
+                rep.sample(json!({"instruction": name, "nesting_depth": d, "cpu_seconds": cpu}));
+            }
+        }
+        crate::supervise::journal_clear();
+    });
+    rep.exhaustive = true;
+    rep.notes.push("every registered instruction with a CODE or EXEC operand x nesting depths 4..128 of its code operands; CPU time of the step (limit 0.4 s)".into());
+    rep
+}
+
 // ---------------------------------------------------------------------------------------------
 // (P) growth programs
 
@@ -287,6 +342,7 @@ pub fn run(ctx: &Ctx) -> PropReport {
     rep.assumptions.push("time is the thread CPU time of the step (limit 0.4 s on states of a few dozen cells) plus the supervising watchdog for hangs".into());
     rep.assumptions.push("known findings: one per offending instruction (alloc-by-operand/<NAME>, points-limit/<NAME>), listed in known-findings.txt".into());
     rep.push(magnitude_checks(ctx));
+    rep.push(nesting_checks(ctx));
     rep.push(run_sharded(ctx, "growth-programs", ctx.tier.pick(30_000, 300_000), growth_program, judge_growth, |s| json!({"state": s.to_json(), "program": s.exec[0].render()})));
     rep
 }
@@ -307,7 +363,11 @@ pub fn replay(_ctx: &Ctx, sub: &str, case: &Value) -> Result<(), Fail> {
     }
     let budget = 64 * 1024 + 8 * state_bytes(&s);
     if cpu > STEP_CPU_LIMIT && bytes <= budget {
-        return Err(Fail::new(format!("C15/time-by-operand/{}", name), format!("{:.2} s of CPU time in one step", cpu)));
+        let kind = if case.get("nesting_depth").is_some() { "time-by-nesting" } else { "time-by-operand" };
+        return Err(Fail::new(format!("C15/{}/{}", kind, name), format!("{:.2} s of CPU time in one step", cpu)));
+    }
+    if case.get("nesting_depth").is_some() {
+        return Ok(());
     }
     if bytes > budget {
         return Err(Fail::new(format!("C15/alloc-by-operand/{}", name), format!("{} bytes requested, budget {}", bytes, budget)));
